@@ -3,7 +3,10 @@
 (* Layer A for C17 (flag strings): splitting the output of pkg-config /    *)
 (* a CFLAGS-like string into flags.                                        *)
 (*                                                                         *)
-(* Characters: 1 space 2 tab 3 " 4 ' 5 \ 6 - 7 $ 8 a 9 e-acute             *)
+(* Characters: 1 space 2 tab 3 " 4 ' 5 \ 6 - 7 $ 8 a 9 M                   *)
+(*   M is ANY multi-byte letter: the harness replays every case with each  *)
+(*   of e-acute (C3 A9), a-grave (C3 A0), A-ring (C3 85), ellipsis         *)
+(*   (E2 80 A6) - a part is never cut inside a character.                  *)
 (*                                                                         *)
 (* Documented grammar (xtool/safesplit doc comment and example table):     *)
 (*   "Each part starts with "-" followed by a single character flag.       *)
